@@ -9,6 +9,9 @@ Decided (structural necessary conditions; the cursor arithmetic over histories i
     the caller come from the same owned buffer field.
  S3 send shape: each send passes exactly the caller's bytes (slice parameter, or a one-byte array built from the
     parameter) as the only device-readable element, nothing writable, on the other queue.
+ S5 trait-level writers (embedded_io::Write::write, fmt::Write::write_str): on every success path the slice handed to
+    the sender is the caller's whole slice, and a returned byte count is the length of exactly the slice that was
+    sent (a writer that sends a prefix but reports the full length drops the rest of the caller's bytes).
  S4 notification protocol on both queues is C05.N3.
 Not decided: equality of delivered and produced byte streams (cursor arithmetic across interleavings of recv / read /
 fill_buf / consume) - value reasoning over histories.
@@ -21,7 +24,7 @@ EXPLANATION = ("The console's posting, finishing and sending helpers are loop-fr
                "are folded over the small state (token present, cursor, pending length) and checked for guards, field writers and "
                "operand provenance.")
 CONFIGS = ['def', 'alloc', 'def-rel']    # these drivers need the `alloc` feature
-FLOORS = {'poster_fns': 1, 'finisher_fns': 1, 'send_fns': 2}
+FLOORS = {'trait_writers': 2, 'poster_fns': 1, 'finisher_fns': 1, 'send_fns': 2}
 DRV = 'device::console::VirtIOConsole'
 
 
@@ -83,6 +86,70 @@ def run(F, R):
                                     'a byte indexed by the read cursor is taken from something other than the receive buffer: %s' % fmt(loc)[:120])
     for b in senders:
         s3_send(F, R, M, b, roles, rxq)
+    s5_trait_writers(F, R, set(x['id'] for x in senders))
+
+
+def norm_slice(t):
+    """Strip conversions, byte views and reborrows: `&*(as_bytes(&*s))` -> s."""
+    while True:
+        t = strip_conv(t)
+        if t[0] == 'idcall':
+            t = t[2]
+        elif t[0] == 'call' and (t[2].endswith('::as_bytes') or t[2].endswith('::as_ref')) and len(t[3]) == 1:
+            t = t[3][0]
+        elif t[0] == 'ref' and t[1][1][0] == 'deref' and not t[1][2]:
+            t = t[1][1][1]
+        elif t[0] == 'refto':
+            t = t[1]
+        else:
+            return t
+
+
+def s5_trait_writers(F, R, sender_ids):
+    n = 0
+    for b in F.bodies.values():
+        if not F.handwritten(b) or DRV not in (b.get('impl_self') or '') or 'Write' not in (b.get('impl_trait') or ''):
+            continue
+        sg = supergraph(F, b['id'], opaque=lambda t, bb: bb['id'] in sender_ids, tag='c15w')
+        if not any(True for _ in sg.calls(lambda d: d.get('fn') in sender_ids)):
+            continue
+        n += 1
+        where = fn_site(F, b['id'])
+        try:
+            paths = [p for p in PathEnum(sg).run() if not p.panicked]
+        except PathLimit as e:
+            R.abstain('S5', b['id'], str(e), where)
+            continue
+        bad = None
+        nsend = 0
+        for p in paths:
+            if err_variant(p.ret) not in ('Ok', None):
+                continue
+            sends = [e for e in p.effects if e[0] == 'call' and e[2] in sender_ids]
+            okv = p.ret[2][0] if (p.ret and p.ret[0] == 'agg' and p.ret[1].endswith('::Ok') and p.ret[2]) else None
+            counted = okv is not None and okv[0] != 'agg'
+            for e in sends:
+                nsend += 1
+                a = e[3][1]
+                na = norm_slice(a)
+                prefix = na[0] == 'ref' and na[1][1][0] == 'deref' and norm_slice(na[1][1][1]) == ('param', 2) and len(na[1][2]) == 1 \
+                    and na[1][2][0][0] == 'idx' and 'RangeTo' in fmt(na[1][2][0][1]) and 'RangeToInclusive' not in fmt(na[1][2][0][1])
+                if na != ('param', 2) and not (counted and prefix):
+                    bad = 'the sender receives %s, not the caller\'s whole slice%s' % (fmt(a)[:100], ' or a counted prefix of it' if counted else '')
+            if okv is not None and okv[0] != 'agg' and sends:
+                # Ok(n): n must be len(<the slice sent>)
+                v = strip_conv(okv)
+                a = norm_slice(sends[-1][3][1])
+                good = v[0] == 'call' and v[2].endswith('::len') and norm_slice(v[3][0]) == a
+                if not good:
+                    bad = 'reports %s bytes written but sent %s' % (fmt(okv)[:60], fmt(sends[-1][3][1])[:80])
+            if okv is not None and okv[0] != 'agg' and not sends:
+                v = strip_conv(okv)
+                if not (v[0] == 'const' and v[1] == 0):
+                    bad = 'reports %s bytes written on a path that sends nothing' % fmt(okv)[:60]
+        R.check(bad is None and nsend > 0, 'S5', '%s:written-count' % b['id'], where, 'whole caller slice sent; reported count = length sent',
+                'trait writer: %s' % (bad or 'no sending path'))
+    R.count('trait_writers', n)
 
 
 def field_of(t):
